@@ -630,7 +630,7 @@ def judge_req(sim, ev, rec):
         genuine = [t for t in rec["tool"] if t.get("op") == "verify" and t.get("genuine_ok")]
         if not genuine:
             hits.append(("no-genuine-verify", "tool=%s" % [(t.get("fault"), t.get("healthy_ok")) for t in rec["tool"]]))
-    elif spec.get("want_authn_requests_signed"):
+    elif spec.get("want_authn_requests_signed") and idp.kind == "idp":
         hits.append(("unsigned-but-required", ""))
     F["hits"] = [h[0] for h in hits]
     for rule, _ in hits:
